@@ -592,6 +592,12 @@ class NodeDerefAssign:
                 raise CklRuntimeError(
                     ValueString("ERROR"), f"Index out of bounds {i}", self.pos
                 )
+            if not value.isString():
+                raise CklRuntimeError(
+                    ValueString("ERROR"),
+                    f"Expected string but got {value.type()}",
+                    self.pos,
+                )
             container.value = s[0:i] + value.value + s[i+1:]
             return container
 
